@@ -13,6 +13,7 @@ import (
 type f1Meta struct {
 	Src, Dst scen.FieldType
 	Tog      []int // caseOff, getter, stringer, typecast, matchNone
+	Reverse  bool  // :style arg + :reverse: the parameter is the destination, the result type the source
 }
 
 func familyF1(thorough bool) []*scen.Cell {
@@ -36,8 +37,21 @@ func familyF1(thorough bool) []*scen.Cell {
 					ID:     fmt.Sprintf("f1_%s_%s_%s", ts.ID, td.ID, scen.DigitsID(tog)),
 					Family: "F1-type-matrix",
 					Files:  map[string]string{"setup.go": setup},
-					Meta:   f1Meta{ts, td, tog},
+					Meta:   f1Meta{ts, td, tog, false},
 				})
+				if tog[0] == 0 && tog[4] == 0 {
+					// the same pair copied in the REVERSE direction of the signature (S stays the source type)
+					rsetup := scen.SetupFile(true, decls, nil, []scen.MethodDecl{{
+						Notations: append([]string{":style arg", ":reverse"}, scen.Toggles(tog[0], tog[1], tog[2], tog[3], tog[4])...),
+						Sig:       "Conv(*D) *S",
+					}})
+					cells = append(cells, &scen.Cell{
+						ID:     fmt.Sprintf("f1_%s_%s_%s_rev", ts.ID, td.ID, scen.DigitsID(tog)),
+						Family: "F1-type-matrix",
+						Files:  map[string]string{"setup.go": rsetup},
+						Meta:   f1Meta{ts, td, tog, true},
+					})
+				}
 			})
 		}
 	}
@@ -166,6 +180,15 @@ func familyFName(thorough bool) []*scen.Cell {
 						split["setup.go"] = strings.ReplaceAll(split["setup.go"], "/c/"+id+"/", "/c/"+id+"_split/")
 						cells = append(cells, &scen.Cell{ID: id + "_split", Family: "F-name", Files: split, Meta: fnameMeta{v.id, imp == 1, tog}})
 					}
+					if tog[0] == 0 && tog[4] == 0 {
+						// the same members offered in the REVERSE direction of the signature: the result type is the source
+						rv := map[string]string{}
+						for n, s := range files {
+							rv[n] = strings.ReplaceAll(s, "/c/"+id+"/", "/c/"+id+"_reverse/")
+						}
+						rv["setup.go"] = strings.Replace(rv["setup.go"], "\tConv("+srcT+") *D\n", "\t// :style arg\n\t// :reverse\n\tConv(*D) "+srcT+"\n", 1)
+						cells = append(cells, &scen.Cell{ID: id + "_reverse", Family: "F-name", Files: rv, Meta: fnameMeta{v.id, imp == 1, tog}})
+					}
 					if tog[0] == 0 && tog[1] == 0 && srcPtr == 1 {
 						// the same run with -log: the log file must not swallow the stderr warnings
 						lf := map[string]string{}
@@ -272,11 +295,11 @@ func familyF3(thorough bool) []*scen.Cell {
 					strings.Contains(ss.expr, "struct") || strings.HasPrefix(ss.expr, "*") || ss.expr == "int") {
 					continue // only named struct types can be embedded here
 				}
-				if emb == 1 && !thorough {
-					continue
-				}
 				scen.Odometer(togR, func(d []int) {
 					tog := append([]int(nil), d...)
+					if emb == 1 && !thorough && tog[1] == 1 {
+						return // quick: embedded members without the getter pass
+					}
 					dn, sn := "N "+sd.expr, "N "+ss.expr
 					if emb == 1 {
 						dn, sn = sd.expr, ss.expr
